@@ -28,6 +28,8 @@ func checkC03(c *Ctx) {
 	ruleP2(c, map[string]bool{"fun": true}, 8)
 	ruleF9(c)
 	ruleP7(c, pipePkgs)
+	ruleG3(c)
+	ruleX13(c, map[string]bool{"ers": true, "erc": true, "fun": true, "internal": true, "itertool": true})
 }
 
 func ruleE8(c *Ctx) {
@@ -127,7 +129,10 @@ func ruleE8(c *Ctx) {
 		case a["in:ExcludedErrors"] && a["ctx"] && a["opt:IncludeContextExpirationErrors"]:
 			why = "excluded and context error with IncludeContextExpirationErrors (unspecified)"
 		case a["in:ExcludedErrors"]:
-			wantRec, why = &F, "excluded error"
+			// never recorded; and, like any failure that is not a cancellation, it does not retire the worker under
+			// ContinueOnError ("every item is still processed exactly once") — also when the excluded error
+			// happens to be a context error the processing function returned for one item
+			wantRec, wantCont, why = &F, b(a["opt:ContinueOnError"]), "excluded error"
 		case a["ctx"]:
 			wantRec, wantCont, why = b(a["opt:IncludeContextExpirationErrors"]), &F, "context error"
 		default:
